@@ -3235,7 +3235,9 @@ def grouped_reduce(inp: AlignedArrays, *, agg: Scan, axis: int, keepdims=None) -
         func=(agg.reduction,),
         axis=axis,
         engine="flox",
-        dtype=inp.array.dtype,
+        # the carried state accumulates like the scan itself: at the result dtype, not at the input's
+        # (a per-block int8 sum wraps past 127)
+        dtype=agg.dtype if agg.dtype is not None else inp.array.dtype,
         fill_value=agg.identity,
         expected_groups=None,
     )
